@@ -441,17 +441,35 @@ Theorem C18_line_classes_decidable :
 Proof. exact line_classes_decidable. Qed.
 Print Assumptions C18_line_classes_decidable.
 
-(** class boundary [require_equals] (the engine has no model of it): `p --opt <TAB>`, `--opt` = Set, 0..=1 values,
-    require_equals, possible value `va`: the engine stands in [Opt], offers `va`, and the completed line
-    `p --opt va` is rejected by the parser model with UnknownArgument (same on the real crate, see notes) *)
-Theorem C18_require_equals_refuted : exists tbl c0 bin line cd,
-  (exists m, parse_top c0 (bin :: line) = OOk m) /\
-  (exists b cur a, build_full (build_fuel c0) c0 = BOk b /\
-     start_walk b (bin :: line ++ [[]]) (N.of_nat (S (length line))) = WAt [] cur 1 (Opt a 1) false true /\ a_req_eq a = true) /\
-  (exists l, complete_model tbl c0 (bin :: line ++ [[]]) (N.of_nat (S (length line))) = COk l /\ In cd l) /\
-  (exists e, parse_top c0 (bin :: line ++ [cd_value cd]) = OErr e /\ e_kind e = EUnknownArgument).
-Proof. exact require_equals_refuted. Qed.
-Print Assumptions C18_require_equals_refuted.
+(** [require_equals], finding C18-require-equals, BEFORE / AFTER the repair (docs/pending/engine_require_equals_fix.diff):
+    `p(--pf; --opt[=<v>] 0..=1 values, require_equals, possible value `va`) -> sub(--so)`.  For the parser `--opt` without `=` is a complete
+    occurrence: `p --opt sub` is accepted at `sub`.  Before: the engine waited for a value behind `--opt` - `p --opt <TAB>` offered `va`
+    (`p --opt va`: InvalidSubcommand) and behind `p --opt sub` it stood at `p` and offered `--pf` (`p --opt sub --pf`: UnknownArgument).
+    After: [ValueDone] behind `--opt`; behind `p --opt sub` the engine is at `sub`, offers `--so`, not `--pf` (same on the real crate) *)
+Theorem C18_require_equals_before_after :
+  (* the parser *)
+  ReqEq.chain_of (parse_top ReqEq.c0 [[112]; ReqEq.dd ReqEq.w_opt]) = Some [] /\
+  ReqEq.chain_of (parse_top ReqEq.c0 [[112]; ReqEq.dd ReqEq.w_opt; ReqEq.w_sub]) = Some [ReqEq.w_sub] /\
+  ReqEq.kind_of (parse_top ReqEq.c0 [[112]; ReqEq.dd ReqEq.w_opt; ReqEq.w_va]) = Some EInvalidSubcommand /\
+  ReqEq.kind_of (parse_top ReqEq.c0 [[112]; ReqEq.dd ReqEq.w_opt; ReqEq.w_sub; ReqEq.dd ReqEq.w_pf]) = Some EUnknownArgument /\
+  ReqEq.chain_of (parse_top ReqEq.c0 [[112]; ReqEq.dd ReqEq.w_opt; ReqEq.w_sub; ReqEq.dd ReqEq.w_so]) = Some [ReqEq.w_sub] /\
+  (* before *)
+  ReqEq.walk_at_before [[112]; ReqEq.dd ReqEq.w_opt; []] 2 = Some ([112], 1) /\
+  ReqEq.has_cand ReqEq.w_va None (complete_model_before_reqfix ReqEq.tbl ReqEq.c0 [[112]; ReqEq.dd ReqEq.w_opt; []] 2) = true /\
+  ReqEq.walk_at_before [[112]; ReqEq.dd ReqEq.w_opt; ReqEq.w_sub; [45; 45]] 3 = Some ([112], 0) /\
+  ReqEq.has_cand (ReqEq.dd ReqEq.w_pf) (Some (IdArg ReqEq.w_pf))
+    (complete_model_before_reqfix ReqEq.tbl ReqEq.c0 [[112]; ReqEq.dd ReqEq.w_opt; ReqEq.w_sub; [45; 45]] 3) = true /\
+  (* after *)
+  ReqEq.walk_at [[112]; ReqEq.dd ReqEq.w_opt; []] 2 = Some ([112], 0) /\
+  ReqEq.has_cand ReqEq.w_va None (complete_model ReqEq.tbl ReqEq.c0 [[112]; ReqEq.dd ReqEq.w_opt; []] 2) = false /\
+  ReqEq.has_cand ReqEq.w_sub (Some (IdCmd ReqEq.w_sub)) (complete_model ReqEq.tbl ReqEq.c0 [[112]; ReqEq.dd ReqEq.w_opt; []] 2) = true /\
+  ReqEq.walk_at [[112]; ReqEq.dd ReqEq.w_opt; ReqEq.w_sub; [45; 45]] 3 = Some (ReqEq.w_sub, 0) /\
+  ReqEq.has_cand (ReqEq.dd ReqEq.w_pf) (Some (IdArg ReqEq.w_pf))
+    (complete_model ReqEq.tbl ReqEq.c0 [[112]; ReqEq.dd ReqEq.w_opt; ReqEq.w_sub; [45; 45]] 3) = false /\
+  ReqEq.has_cand (ReqEq.dd ReqEq.w_so) (Some (IdArg ReqEq.w_so))
+    (complete_model ReqEq.tbl ReqEq.c0 [[112]; ReqEq.dd ReqEq.w_opt; ReqEq.w_sub; [45; 45]] 3) = true.
+Proof. exact require_equals_before_after. Qed.
+Print Assumptions C18_require_equals_before_after.
 
 (** C18_complete_options needs its hypothesis [a_long a <> None]: a VISIBLE alias of an option without long name
     (a key of the parser) extends the word `--`, yet no candidate carries the option's id
